@@ -9,6 +9,7 @@ package faultsys
 import (
 	"context"
 	"fmt"
+	"io"
 	"math/rand"
 	"net"
 	"net/http"
@@ -24,9 +25,10 @@ import (
 type Trigger struct {
 	Method string `json:"method"` // e.g. "Worker.Run"
 	N      int    `json:"n"`      // ordinal of the call among calls of Method
-	Phase  string `json:"phase"`  // before | after (after the reply was produced, before it is delivered)
+	Phase  string `json:"phase"`  // before | after (after the reply was produced, before it is delivered) | mid (while the reply body streams)
 	Victim string `json:"victim"` // target | other
 	Drop   bool   `json:"drop"`   // after: drop the reply instead of delivering it
+	CutAfter int  `json:"cut_after,omitempty"` // mid: the victim is killed and the stream breaks once this many bytes of the reply body were delivered
 	HoldMs int    `json:"hold_ms,omitempty"` // after: deliver the reply only this long after the kill (the driver learns of the loss first)
 }
 
@@ -326,6 +328,39 @@ func (t *transport) RoundTrip(req *http.Request) (*http.Response, error) {
 	s.mu.Unlock()
 	s.observe(method, addr, "before", ordinal)
 	resp, err := t.base.RoundTrip(req)
+	if err == nil && resp != nil && resp.Body != nil {
+		s.mu.Lock()
+		for i, tr := range s.plan {
+			if s.enabled && !s.fired[i] && tr.Phase == "mid" && tr.Method == method && tr.N == ordinal {
+				i, tr := i, tr
+				resp.Body = &cutBody{rc: resp.Body, remaining: tr.CutAfter, onCut: func() {
+					s.mu.Lock()
+					already := s.fired[i] || !s.enabled
+					s.fired[i] = true
+					s.mu.Unlock()
+					if already {
+						return
+					}
+					var m *bigmachine.Machine
+					if tr.Victim == "other" {
+						m = s.otherMachine(addr)
+					} else {
+						m = s.machineByAddr(addr)
+					}
+					what := "no such machine"
+					if m != nil {
+						what = s.kill(m)
+					}
+					s.mu.Lock()
+					s.Kills++
+					s.Log = append(s.Log, Event{Method: method, Addr: addr, Kill: fmt.Sprintf("mid-stream after %d bytes/%s -> %s", tr.CutAfter, tr.Victim, what)})
+					s.mu.Unlock()
+				}}
+				break
+			}
+		}
+		s.mu.Unlock()
+	}
 	if s.observe(method, addr, "after", ordinal) {
 		if resp != nil && resp.Body != nil {
 			resp.Body.Close()
@@ -334,3 +369,30 @@ func (t *transport) RoundTrip(req *http.Request) (*http.Response, error) {
 	}
 	return resp, err
 }
+
+// cutBody delivers the first bytes of a reply body, then kills a machine and breaks the stream.
+type cutBody struct {
+	rc        io.ReadCloser
+	remaining int
+	onCut     func()
+	cut       bool
+}
+
+func (c *cutBody) Read(p []byte) (int, error) {
+	if c.cut {
+		return 0, io.ErrUnexpectedEOF
+	}
+	if c.remaining <= 0 {
+		c.cut = true
+		c.onCut()
+		return 0, io.ErrUnexpectedEOF
+	}
+	if len(p) > c.remaining {
+		p = p[:c.remaining]
+	}
+	n, err := c.rc.Read(p)
+	c.remaining -= n
+	return n, err
+}
+
+func (c *cutBody) Close() error { return c.rc.Close() }
